@@ -92,6 +92,15 @@ class MIntGroup:
         return pow(h, (self.p - 1) // self.q, self.p)
 
 
+class MIntGroupAltPw(MIntGroup):
+    """same (p, q, g), but the application's group class maps passwords to scalars differently
+    (e.g. a stretching KDF): a different group as far as SPAKE2 is concerned"""
+
+    def pw_scalar(self, pw):
+        import hashlib
+        return int.from_bytes(hashlib.sha256(b"alt-kdf|" + pw).digest() * 4, "big") % self.q
+
+
 # ----------------------------------------------------------------------------
 # twisted Edwards groups  -x^2 + y^2 = 1 + d x^2 y^2  over GF(Q), 8*L points
 # ----------------------------------------------------------------------------
